@@ -22,7 +22,7 @@ import (
 	"verifharness/common"
 )
 
-const watchdog = 1500 * time.Millisecond
+const watchdog = 4 * time.Second
 
 type run struct {
 	r     *common.Run
